@@ -1,12 +1,14 @@
 #!/bin/bash
 # selftest/harmless-all.sh [patch-name-glob]  — every must-pass edit against EVERY property's quick check (not only the
 # property named in the patch's file name): an edit that keeps all properties must keep all twenty checks quiet.
+# selftest/harmless-any/ holds behaviour-preserving refactors written by independent sub-agents (A<agent><n>-<kind>).
 here="$(cd "$(dirname "$0")/.." && pwd)"
 scratch="$(mktemp -d /tmp/bklverif-harmless.XXXXXX)"
 trap 'rm -rf "$scratch"' EXIT
 rsync -a --exclude .git --exclude testdata /repo/ "$scratch/repo/"
 fail=0; n=0
-for p in "$here"/selftest/harmless/${1:-*}.patch; do
+for p in "$here"/selftest/harmless/${1:-*}.patch "$here"/selftest/harmless-any/${1:-*}.patch; do
+  [ -e "$p" ] || continue
   b="$(basename "$p" .patch)"; n=$((n+1))
   if ! patch -s -p1 -d "$scratch/repo" < "$p"; then echo "SELFTEST-BROKEN $b: patch does not apply"; fail=1; continue; fi
   if ! ( cd "$scratch/repo" && GOFLAGS=-mod=mod GOPROXY=off go build ./... ) >/dev/null 2>&1; then echo "SELFTEST-BROKEN $b: does not build"; fail=1; fi
